@@ -15,6 +15,7 @@ import WhVerif.Lemmas.C06SecondIndel
 import WhVerif.Lemmas.C06AffineStrip
 import WhVerif.Lemmas.C06Merge
 import WhVerif.Lemmas.C06IndelCut
+import WhVerif.Lemmas.C06SecondIndelLeft
 /-!
 # C06 — allele detection never assigns the wrong allele to an error-free read: theorems about the model
 
@@ -1534,6 +1535,111 @@ example : usedBy true m2 100000 sup = true ∧ usedBy true m2 100000 m1 = true :
 /-- conflicting mates (impossible for error-free ones): the position is dropped, not decided -/
 example : mergeGroup true [m1, ⟨false, true, 15, 40, [(20, 1, 30)]⟩] 100000 = some [(10, 1, 30)] := by decide
 end NonVacuityMerge
+
+/-! ## Round 10: a second deletion / insertion of the read's haplotype entirely inside the LEFT half of the window
+(mirror of `window_is_padded_allele_second_indel`) -/
+
+/-- CIGAR `A ++ W1a ++ [(uop, L)] ++ W1b ++ [(op, len)] ++ W2 ++ B`: the second indel lies `l0 = refLen W1b + d` reference
+bases in front of the variant position, entirely inside the left half of the window.  The window's query is
+`lp ++ uq ++ g ++ a ++ rp`, the padded alleles are `lp ++ ur ++ g ++ x ++ rp` (`g` = the `l0` reference bases between the
+second indel and the variant, `ur` = the `L` deleted reference bases, `uq` = the inserted bases). -/
+theorem window_is_padded_allele_second_indel_left (f14 : Bool) (R query : Seq) (pos : Nat) (ref a uq : Seq) (alts : List Seq)
+    (A W1a W1b W2 B : Cigar) (op len d uop L start oh r0 : Nat) (hoh : 0 < oh)
+    (hW1a : W1a.all isMatchOp = true) (hW1b : W1b.all isMatchOp = true) (hW2 : W2.all isMatchOp = true)
+    (hu : uop = 2 ∨ uop = 1) (huq : uq.length = if uop = 1 then L else 0)
+    (hshape : (isMatch op = true ∧ d < len ∧ d + ref.length ≤ len ∧ a.length = ref.length ∧ r0 = len - d)
+      ∨ (op = 2 ∧ a = [] ∧ len = ref.length ∧ d = 0 ∧ 0 < len ∧ r0 = len)
+      ∨ (op = 1 ∧ ref = [] ∧ len = a.length ∧ d = 0 ∧ 0 < len ∧ r0 = 0))
+    (hpos : pos = start + refLen A + refLen W1a + (if uop = 2 then L else 0) + refLen W1b + d)
+    (hR : slice R pos ref.length = ref)
+    (hin2 : refLen W1b + d + (if uop = 2 then L else 0) < oh)
+    (hin : pos + r0 + refLen W2 ≤ R.length)
+    (hleft : oh ≤ refLen W1b + d + (if uop = 2 then L else 0) + refLen W1a ∨ endsWindow f14 A.reverse = true)
+    (hright : ref.length + oh ≤ r0 + refLen W2 ∨ endsWindow f14 B = true)
+    (hq : slice query (qLen A) (refLen W1a + (uq.length + (refLen W1b + d) + a.length) + (r0 - ref.length + refLen W2)) =
+      slice R (start + refLen A) (refLen W1a) ++ (uq ++ slice R (pos - (refLen W1b + d)) (refLen W1b + d) ++ a)
+        ++ slice R (pos + ref.length) (r0 - ref.length + refLen W2)) :
+    ∃ lp rp, window f14 ⟨pos, ref, alts⟩ query (A ++ W1a ++ (uop, L) :: (W1b ++ (op, len) :: (W2 ++ B)))
+        (A ++ W1a ++ (uop, L) :: W1b).length d ((qLen (A ++ W1a ++ (uop, L) :: W1b) + d : Nat) : Int) R oh
+      = .ok ⟨lp ++ uq ++ slice R (pos - (refLen W1b + d)) (refLen W1b + d) ++ a ++ rp,
+             (ref :: alts).map (fun x => lp ++ slice R (pos - (refLen W1b + d) - (if uop = 2 then L else 0)) (if uop = 2 then L else 0)
+               ++ slice R (pos - (refLen W1b + d)) (refLen W1b + d) ++ x ++ rp)⟩ := by
+  obtain ⟨m1, m2, hw⟩ := window_second_indel_left f14 R query pos ref a uq alts A W1a W1b W2 B op len d uop L start oh r0
+    hoh hW1a hW1b hW2 hu huq hshape hpos hR hin2 hin hleft hright hq
+  exact ⟨_, _, hw⟩
+
+/-- F11 criterion, left half: `realign` returns `k` iff `ur ++ g ++ x_k` is strictly closer to `uq ++ g ++ a` than every
+other `ur ++ g ++ x_j`. -/
+theorem realign_second_indel_left_criterion (f14 : Bool) (R query : Seq) (pos : Nat) (ref a uq : Seq) (alts : List Seq)
+    (hsym : ∀ x ∈ alts, x.head? ≠ some '<')
+    (A W1a W1b W2 B : Cigar) (op len d uop L start oh r0 : Nat) (hoh : 0 < oh)
+    (hW1a : W1a.all isMatchOp = true) (hW1b : W1b.all isMatchOp = true) (hW2 : W2.all isMatchOp = true)
+    (hu : uop = 2 ∨ uop = 1) (huq : uq.length = if uop = 1 then L else 0)
+    (hshape : (isMatch op = true ∧ d < len ∧ d + ref.length ≤ len ∧ a.length = ref.length ∧ r0 = len - d)
+      ∨ (op = 2 ∧ a = [] ∧ len = ref.length ∧ d = 0 ∧ 0 < len ∧ r0 = len)
+      ∨ (op = 1 ∧ ref = [] ∧ len = a.length ∧ d = 0 ∧ 0 < len ∧ r0 = 0))
+    (hpos : pos = start + refLen A + refLen W1a + (if uop = 2 then L else 0) + refLen W1b + d)
+    (hR : slice R pos ref.length = ref)
+    (hin2 : refLen W1b + d + (if uop = 2 then L else 0) < oh)
+    (hin : pos + r0 + refLen W2 ≤ R.length)
+    (hleft : oh ≤ refLen W1b + d + (if uop = 2 then L else 0) + refLen W1a ∨ endsWindow f14 A.reverse = true)
+    (hright : ref.length + oh ≤ r0 + refLen W2 ∨ endsWindow f14 B = true)
+    (hq : slice query (qLen A) (refLen W1a + (uq.length + (refLen W1b + d) + a.length) + (r0 - ref.length + refLen W2)) =
+      slice R (start + refLen A) (refLen W1a) ++ (uq ++ slice R (pos - (refLen W1b + d)) (refLen W1b + d) ++ a)
+        ++ slice R (pos + ref.length) (r0 - ref.length + refLen W2))
+    (k : Nat) :
+    realign f14 lev ⟨pos, ref, alts⟩ none query (A ++ W1a ++ (uop, L) :: (W1b ++ (op, len) :: (W2 ++ B)))
+        (A ++ W1a ++ (uop, L) :: W1b).length d ((qLen (A ++ W1a ++ (uop, L) :: W1b) + d : Nat) : Int) R oh = .ok (some k) ↔
+      ∃ xk, (ref :: alts)[k]? = some xk ∧ ∀ j xj, (ref :: alts)[j]? = some xj → j ≠ k →
+        lev (uq ++ slice R (pos - (refLen W1b + d)) (refLen W1b + d) ++ a)
+            (slice R (pos - (refLen W1b + d) - (if uop = 2 then L else 0)) (if uop = 2 then L else 0)
+              ++ slice R (pos - (refLen W1b + d)) (refLen W1b + d) ++ xk)
+        < lev (uq ++ slice R (pos - (refLen W1b + d)) (refLen W1b + d) ++ a)
+            (slice R (pos - (refLen W1b + d) - (if uop = 2 then L else 0)) (if uop = 2 then L else 0)
+              ++ slice R (pos - (refLen W1b + d)) (refLen W1b + d) ++ xj) := by
+  obtain ⟨lp, rp, hw⟩ := window_is_padded_allele_second_indel_left f14 R query pos ref a uq alts A W1a W1b W2 B op len d uop L
+    start oh r0 hoh hW1a hW1b hW2 hu huq hshape hpos hR hin2 hin hleft hright hq
+  have hs : isSymbolic ⟨pos, ref, alts⟩ = false := by
+    simp only [isSymbolic, List.any_eq_false]
+    intro x hx
+    simpa using hsym x hx
+  rw [realign_decision_iff f14 lev _ query _ _ _ _ R oh _ hs hw k]
+  generalize slice R (pos - (refLen W1b + d)) (refLen W1b + d) = g
+  generalize slice R (pos - (refLen W1b + d) - (if uop = 2 then L else 0)) (if uop = 2 then L else 0) = ur
+  have hcancel : ∀ x : Seq, lev (lp ++ uq ++ g ++ a ++ rp) (lp ++ ur ++ g ++ x ++ rp) = lev (uq ++ g ++ a) (ur ++ g ++ x) := by
+    intro x
+    have e1 : lp ++ uq ++ g ++ a ++ rp = lp ++ ((uq ++ g ++ a) ++ rp) := by simp [List.append_assoc]
+    have e2 : lp ++ ur ++ g ++ x ++ rp = lp ++ ((ur ++ g ++ x) ++ rp) := by simp [List.append_assoc]
+    rw [e1, e2, lev_append_left, lev_append_right]
+  simp only [List.getElem?_map, Option.map_eq_some_iff]
+  constructor
+  · rintro ⟨pk, ⟨xk, hxk, rfl⟩, hall⟩
+    refine ⟨xk, hxk, ?_⟩
+    intro j xj hxj hjk
+    have := hall j _ ⟨xj, hxj, rfl⟩ hjk
+    rw [hcancel, hcancel] at this
+    exact this
+  · rintro ⟨xk, hxk, hall⟩
+    refine ⟨_, ⟨xk, hxk, rfl⟩, ?_⟩
+    rintro j pj ⟨xj, hxj, rfl⟩ hjk
+    rw [hcancel, hcancel]
+    exact hall j xj hxj hjk
+
+/-! ### non-vacuity (left half) -/
+section NonVacuityLeft
+/-- reference `GGTTACCGGGGGG…`: the haplotype deletes `TT` at 2..3 and carries the insertion `ε>TT` at 5 (twins, mirrored);
+read `2M 2D 1M 2I 8M`, overhang 4: every hypothesis holds -/
+private def Rl : Seq := ['G', 'G', 'T', 'T', 'A', 'C', 'C', 'G', 'G', 'G', 'G', 'G', 'G']
+example : ∃ lp rp, window true ⟨5, [], [['T', 'T']]⟩ ['G', 'G', 'A', 'T', 'T', 'C', 'C', 'G', 'G', 'G', 'G', 'G', 'G']
+    ([] ++ [(0, 2)] ++ (2, 2) :: ([(0, 1)] ++ (1, 2) :: ([(0, 8)] ++ []))) ([] ++ [(0, 2)] ++ (2, 2) :: [(0, 1)]).length 0
+    ((qLen ([] ++ [(0, 2)] ++ (2, 2) :: [(0, 1)]) + 0 : Nat) : Int) Rl 4 = .ok ⟨lp ++ [] ++ slice Rl (5 - (refLen [(0, 1)] + 0)) (refLen [(0, 1)] + 0) ++ ['T', 'T'] ++ rp,
+      ([] :: [['T', 'T']]).map (fun x => lp ++ slice Rl (5 - (refLen [(0, 1)] + 0) - (if 2 = 2 then 2 else 0)) (if 2 = 2 then 2 else 0)
+        ++ slice Rl (5 - (refLen [(0, 1)] + 0)) (refLen [(0, 1)] + 0) ++ x ++ rp)⟩ :=
+  window_is_padded_allele_second_indel_left true Rl _ 5 [] ['T', 'T'] [] [['T', 'T']] [] [(0, 2)] [(0, 1)] [(0, 8)] []
+    1 2 0 2 2 0 4 0 (by decide) (by decide) (by decide) (by decide) (Or.inl rfl) (by decide)
+    (Or.inr (Or.inr ⟨rfl, rfl, rfl, rfl, by decide, rfl⟩)) (by decide) (by decide) (by decide) (by decide)
+    (Or.inl (by decide)) (Or.inl (by decide)) (by decide)
+end NonVacuityLeft
 
 /-! ## Round 10: a second deletion of the read's haplotype CUT by the right window boundary
 
